@@ -106,13 +106,18 @@ def tok_uw(k):
             r"stubs::(sort_unstable|push|to_vec)": 6, r"dedup": k + 2, r"h::": 6}
 
 def ext_uw(k):
-    d = dict(tok_uw(k))
-    d.update({r"try_from_iter": k + 2, r"btree": 3, r"dedup": k + 2, r"is_type|is_attribute|is_language_subtag|Iter<'_, u8>": 10})
+    # byte loops over one subtag (<= 9 bytes) first: their names also contain `slice::Iter<`
+    d = {r"is_type|is_attribute|is_language_subtag|Iter<'_, u8>": 10, r"try_from_iter": k + 2, r"btree": 3, r"dedup": k + 2}
+    for k_, v_ in tok_uw(k).items():
+        d.setdefault(k_, v_)
     return d
 TLIST_STUBS = EXT_STUBS + ["<[unic_langid_impl::subtags::Variant]>::sort_unstable", "std::vec::Vec::into_boxed_slice"]
 def xuw(k):
-    d = ext_uw(k)
-    d.update({r"xspec::|iter_is|ulist_is|tlist_is|plist_is|count_t?keys|insert_sorted": max(k + 4, 6), r"spec::infos|toks_len|toks9|h::slices": k + 2})
+    # harness-side comparison loops first: their pretty names carry the iterator types of the getters
+    # (`slice::Iter<..>`), which the std-iterator rule of tok_uw would otherwise claim with a too-small bound
+    d = {r"(^|[^:\w])(vh::)?(h::iter_is|h::[utp]list_is|xspec::|c03::count_t?keys)|insert_sorted": max(k + 4, 6), r"spec::infos|toks_len|toks9|h::slices": k + 2}
+    for k_, v_ in ext_uw(k).items():
+        d.setdefault(k_, v_)
     return d
 C10_UW = {r"stubs::": 6, r"c10::|set_contains|set_remove|insert_sorted|iter_is|ulist_is|plist_is": 6, r"binary_search": 4, r"Vec::<.*>::(insert|remove)|contains|memmove|memcpy": 6, r"btree": 3, r"dedup": 5}
 def glue_uw(n, k):
@@ -190,6 +195,16 @@ PROPS["C13"] = P(
         J("c13_superset_1", unwind=6, uw=tok_uw(1), stubs=PARSER_STUBS, desc="1 x T9 through the strict and the permissive token-level entry"),
         J("c13_superset_2", unwind=6, uw=tok_uw(2), stubs=PARSER_STUBS, desc="2 x T9", weight=2),
         J("c13_superset_3", unwind=6, uw=tok_uw(3), stubs=PARSER_STUBS, desc="3 x T9", weight=3, mem_gb=12),
+        J("c13_permissive_1", unwind=6, uw=tok_uw(1), stubs=PARSER_STUBS, desc="permissive entry (allow_extension=true, the one parse_locale calls) on 1 x T9 == reference permissive parse (identifier and number of subtags left)"),
+        J("c13_permissive_2", unwind=6, uw=tok_uw(2), stubs=PARSER_STUBS, desc="2 x T9", weight=2),
+        J("c13_permissive_3", unwind=6, uw=tok_uw(3), stubs=PARSER_STUBS, desc="3 x T9", weight=3, mem_gb=12),
+        J("c13_permissive_4", tier="t", unwind=6, uw=tok_uw(4), stubs=PARSER_STUBS, desc="4 x T9", weight=4, mem_gb=16),
+        J("c13_ref_lemma_2", unwind=6, uw=tok_uw(2), desc="reference only, 2 x T9: permissive parse == strict parse of the consumed prefix; strict success => permissive success with nothing left"),
+        J("c13_ref_lemma_3", unwind=6, uw=tok_uw(3), desc="reference only, 3 x T9"),
+        J("c13_ref_lemma_4", unwind=6, uw=tok_uw(4), desc="reference only, 4 x T9"),
+        J("c13_locale_glue_lang2", unwind=5, uw=glue_uw(2, 1), stubs=TLIST_STUBS, desc="Locale::from_bytes vs LanguageIdentifier::from_bytes on every 2-byte string without separator (symbolic language through the real parse_locale)", weight=3, mem_gb=16, cbmc=NOPTR),
+        J("c13_locale_glue_lang3", unwind=6, uw=glue_uw(3, 1), stubs=TLIST_STUBS, desc="same on every 3-byte string without separator", weight=3, mem_gb=16, cbmc=NOPTR),
+        J("c13_locale_glue_lang2_us", tier="t", unwind=8, uw=glue_uw(5, 2), stubs=TLIST_STUBS, desc="same on '??-US', ?? any two non-separator bytes", weight=4, mem_gb=24, cbmc=NOPTR),
         J("c13_prefix_2", unwind=6, uw=tok_uw(2), stubs=PARSER_STUBS, desc="2 x T9: the permissive entry's result equals the strict parse of the consumed prefix", weight=2),
         J("c13_prefix_3", tier="t", unwind=6, uw=tok_uw(3), stubs=PARSER_STUBS, desc="3 x T9", weight=3, mem_gb=12),
         J("c13_extmap_exhausted", unwind=6, uw=ext_uw(1), stubs=EXT_STUBS, desc="ExtensionsMap::try_from_iter on an exhausted iterator is Ok(empty)"),
@@ -280,6 +295,7 @@ PROPS["C03"] = P(
         J("c03_dispatch_1", unwind=6, uw=xuw(1), stubs=EXT_STUBS, desc="ExtensionsMap::try_from_iter on one fully symbolic subtag vs reference dispatcher"),
         uf("c03_u_3", [3]), uf("c03_u_2", [2]), uf("c03_u_2_3", [2, 3]), uf("c03_u_3_3", [3, 3]), uf("c03_u_8_2_4", [8, 2, 4]),
         uf("c03_u_2_4_1", [2, 4, 1]), uf("c03_u_2_3_9", [2, 3, 9]), uf("c03_u_3_0", [3, 0]), uf("c03_u_1", [1]), uf("c03_u_9", [9]),
+        uf("c03_u_4", [4]), uf("c03_u_4_2_4", [4, 2, 4]), uf("c03_u_5_3", [5, 3]),
         uf("c03_u_2_2", [2, 2], tier="t"), uf("c03_u_2_3_2_3", [2, 3, 2, 3], tier="t"),
         tf("c03_t_2", [2]), tf("c03_t_2_3", [2, 3]), tf("c03_t_3", [3]), tf("c03_t_2_3_1", [2, 3, 1], tier="t", mem_gb=44, timeout_t=3000, trace=False), tf("c03_t_2_2_3", [2, 2, 3]),
         tf("c03_t_2_5_2", [2, 5, 2], tier="t", mem_gb=44, timeout_t=3000, trace=False), tf("c03_t_2_3_2_3", [2, 3, 2, 3], tier="t"),
@@ -298,6 +314,10 @@ PROPS["C04"] = P(
         J("c04_subtag_display", unwind=6, uw=mk(FMT2, VAL_UW), desc="Display/as_str of every valid subtag of the four types == reference text"),
         J("c04_langid_display_v0", unwind=6, uw=mk(FMT2, VAL_UW), desc="to_string of any langid without variants == reference serialiser; strict recogniser accepts", weight=2),
         J("c04_langid_display_v2", unwind=6, uw=mk(FMT2, VAL_UW), desc="same with 0..2 variants", weight=3, mem_gb=12),
+        J("c04_u_built_attrs", unwind=6, uw=mk(FMT2, C10_UW), stubs=INSREM + EXT_STUBS + STR_STUBS, desc="Display of a -u- list built in place by two set_attribute calls with arbitrary arguments (0..2 attributes, any order / equal) == reference serialisation", weight=3, mem_gb=16, cbmc=NOPTR),
+        J("c04_u_built_kw", unwind=6, uw=mk(FMT2, {r"kv_|from_iter|extend|filter_map|FilterMap|GenericShunt|try_fold|try_for_each": 6}, C10_UW), stubs=INSREM + EXT_STUBS + STR_STUBS, desc="same plus one set_keyword (key any 2 bytes, 0..2 types of any bytes): attributes, then key and types", weight=4, mem_gb=24, cbmc=NOPTR),
+        J("c04_t_built", unwind=6, uw=mk(FMT2, {r"kv_|from_iter|extend|filter_map|FilterMap|GenericShunt|try_fold|try_for_each": 6}, C10_UW, VAL_UW), stubs=TLIST_STUBS + STR_STUBS, desc="Display of a -t- list built in place: optional tlang (language-region), optional field (key any 2 bytes, 0..2 values)", weight=4, mem_gb=24, cbmc=NOPTR),
+        J("c04_locale_built", unwind=6, uw=mk(FMT2, {r"kv_|from_iter|extend|filter_map|FilterMap|GenericShunt|try_fold|try_for_each": 6}, C10_UW, VAL_UW), stubs=INSREM + TLIST_STUBS + STR_STUBS, desc="whole Locale built in place (language-region id, one attribute, one tfield, one private tag, all arguments arbitrary): id, then t, u, x", weight=5, mem_gb=30, cbmc=NOPTR),
         J("c04_u_display_3_3", unwind=6, uw=mk(FMT2, xuw(2)), stubs=EXT_STUBS + STR_STUBS, desc="Display of a -u- list parsed from [S(3),S(3)] (two attributes, any order / equal) == reference serialisation", weight=3, mem_gb=16, cbmc=NOPTR),
         J("c04_u_display_3_2_4", unwind=6, uw=mk(FMT2, xuw(3)), stubs=EXT_STUBS + STR_STUBS, desc="-u- list from [S(3),S(2),S(4)] (attribute, key, type)", weight=4, mem_gb=24, cbmc=NOPTR),
         J("c04_u_display_2_3_2_3", tier="t", unwind=6, uw=mk(FMT2, xuw(4)), stubs=EXT_STUBS + STR_STUBS, desc="-u- list with two keywords (key order in the output)", weight=5, mem_gb=40, cbmc=NOPTR, timeout_t=5400),
@@ -344,6 +364,8 @@ PROPS["C10"] = P(
     jobs=[
         J("c10_attr_history_2", unwind=6, uw=C10_UW, stubs=INSREM + ["<[tinystr::TinyAsciiStr<8>]>::sort_unstable"], desc="attribute set: all histories of 2 symbolic ops (set/remove/has/clear) with T9 arguments vs sorted-set model", weight=2, mem_gb=12, cbmc=NOPTR),
         J("c10_attr_history_3", tier="t", unwind=6, uw=C10_UW, stubs=INSREM + ["<[tinystr::TinyAsciiStr<8>]>::sort_unstable"], desc="histories of 3 ops", weight=4, mem_gb=24, cbmc=NOPTR),
+        J("c10_attr_inductive", unwind=6, uw=C10_UW, stubs=INSREM + EXT_STUBS, desc="attribute set: ONE symbolic op from an arbitrary pre-state satisfying the representation invariant (0..3 valid normalised attributes, strictly increasing; raw constructor hook) vs the model - an inductive step covering histories of any length over states of <= 3 elements", weight=3, mem_gb=16, cbmc=NOPTR),
+        J("c10_tag_inductive", unwind=6, uw=C10_UW, stubs=INSREM + EXT_STUBS, desc="private tags: one symbolic op from an arbitrary sorted multiset of 0..3 valid tags", weight=3, mem_gb=16, cbmc=NOPTR),
         J("c10_tag_history_2", unwind=6, uw=C10_UW, stubs=INSREM + EXT_STUBS, desc="private tags: all histories of 2 symbolic ops (add/remove/has/clear) vs sorted-multiset model", weight=2, mem_gb=12, cbmc=NOPTR),
         J("c10_tag_history_3", tier="t", unwind=6, uw=C10_UW, stubs=INSREM + EXT_STUBS, desc="histories of 3 ops", weight=4, mem_gb=24, cbmc=NOPTR),
         J("c10_kw_history_1", unwind=6, uw=mk({r"kv_|from_iter|extend|filter_map|FilterMap|GenericShunt|try_fold|try_for_each": 6}, C10_UW), stubs=EXT_STUBS, desc="keywords: one symbolic op (set with 0..2 values / remove / get / clear), key and values T9, vs ordered-map model", weight=3, mem_gb=16, cbmc=NOPTR),
@@ -361,8 +383,14 @@ PROPS["C10"] = P(
 PROPS["C19"] = P(
     jobs=[
         J("c19_serialize_canonical", cfg="serde", unwind=6, uw=mk({r"c19::|Cap": 50}, FMT2, VAL_UW), stubs=STR_STUBS, desc="Serialize of any langid (<=1 variant) through a capturing Serializer == reference canonical string", weight=2, mem_gb=12),
-        J("c19_deserialize_frame", cfg="serde", unwind=7, uw=mk({r"Split|position|c19::": 7}, tok_uw(1)), stubs=PARSER_STUBS, desc="Deserialize(visit_str(s)) vs s.parse() on 'en?US', ? any ASCII byte", weight=3, mem_gb=16),
-        J("c19_deserialize_str_2", cfg="serde", unwind=5, uw=mk({r"Split|position|c19::": 4}, tok_uw(2)), stubs=PARSER_STUBS, desc="Deserialize(visit_str(s)) vs s.parse() for every 2-byte ASCII string", weight=3, mem_gb=16),
+        J("c19_serialize_canonical_v2", cfg="serde", unwind=6, uw=mk({r"c19::|Cap": 50}, FMT2, VAL_UW), stubs=STR_STUBS, desc="language-script-region with two variants (text up to 35 bytes)", weight=3, mem_gb=16),
+        J("c19_deserialize_str_1", cfg="serde", unwind=4, uw=mk({r"Split|position|c19::|sep_frame": 3}, tok_uw(1)), stubs=PARSER_STUBS, desc="Deserialize(visit_str(s)) vs s.parse() for every 1-byte ASCII string", weight=2, mem_gb=12),
+        J("c19_deserialize_concrete", cfg="serde", unwind=13, uw=mk({r"Split|position|c19::|sep_frame": 12}, tok_uw(3)), stubs=PARSER_STUBS, desc="the concrete string 'en-Latn-US' through Deserialize and FromStr (reachability of the success path)", weight=1, need_cover=False),
+        J("c19_deserialize_lead", tier="t", cfg="serde", unwind=6, uw=mk({r"Split|position|c19::|sep_frame": 5}, tok_uw(2)), stubs=PARSER_STUBS, desc="Deserialize(visit_str(s)) vs s.parse() on '?en', ? any ASCII byte (leading padding / separator)", weight=2, mem_gb=12),
+        J("c19_deserialize_trail", tier="t", cfg="serde", unwind=6, uw=mk({r"Split|position|c19::|sep_frame": 5}, tok_uw(2)), stubs=PARSER_STUBS, desc="same on 'en?'", weight=2, mem_gb=12),
+        J("c19_deserialize_lead_trail", tier="t", cfg="serde", unwind=10, uw=mk({r"Split|position|c19::|sep_frame": 9}, tok_uw(4)), stubs=PARSER_STUBS, desc="same on '?en-US?'", weight=4, mem_gb=24),
+        J("c19_deserialize_frame", tier="t", cfg="serde", unwind=7, uw=mk({r"Split|position|c19::": 7}, tok_uw(1)), stubs=PARSER_STUBS, desc="Deserialize(visit_str(s)) vs s.parse() on 'en?US', ? any ASCII byte", weight=3, mem_gb=16),
+        J("c19_deserialize_str_2", tier="t", cfg="serde", unwind=5, uw=mk({r"Split|position|c19::": 4}, tok_uw(2)), stubs=PARSER_STUBS, desc="Deserialize(visit_str(s)) vs s.parse() for every 2-byte ASCII string", weight=3, mem_gb=16),
         J("c19_deserialize_str_3", tier="x", cfg="serde", unwind=7, uw=mk({r"Split|position|c19::": 6}, tok_uw(4)), stubs=PARSER_STUBS, desc="Deserialize(visit_str(s)) vs s.parse() for every ASCII string of <= 3 bytes", weight=3, mem_gb=12),
         J("c19_non_string_rejected", cfg="serde", unwind=6, desc="bool / u64 / i64 / f64 / unit / none / bytes inputs: Err, no panic"),
     ],
@@ -440,7 +468,7 @@ def under(cfg, pid, name, tier="q"):
 # harnesses that assert exact agreement with a feature-independent reference (or a law of the library alone)
 C20_SET = [("C15", "c15_language_exact"), ("C15", "c15_script_exact"), ("C15", "c15_region_exact"), ("C15", "c15_variant_exact"),
            ("C02", "c02_tokens_2"), ("C04", "c04_langid_display_v0"), ("C11", "c11_langid_formula_v1"), ("C12", "c12_langid_eq_ord_v1"),
-           ("C10", "c10_attr_history_2"), ("C10", "c10_variants_2"), ("C03", "c03_u_2_3"), ("C13", "c13_superset_1")]
+           ("C10", "c10_attr_history_2"), ("C10", "c10_variants_2"), ("C03", "c03_u_2_3"), ("C13", "c13_superset_1"), ("C12", "c12_langid_eq_str")]
 _c20 = []
 for cfg_ in FACADE_CFGS:
     quick_cfg = cfg_ in ("facade_none", "facade_likel_serde_macro")
